@@ -199,7 +199,6 @@ def step (sto : Option St) (line : String) : Option St × String :=
           let res := match r with
             | .data b false => "ok " ++ hexOfBytes b
             | .data b true => "eof " ++ hexOfBytes b
-            | .stale k => s!"ok stale {k}"
             | .eof => "eof -"
             | .errReset => "err reset"
             | .errClosed => "err closed"
